@@ -18,7 +18,22 @@ def observe(R, n, seed=None):
     out = R.harness("c18", ["-n", n], env=env, outdir=os.path.join(R.work, "c18_%s" % (seed if seed is not None else "main")))
     if not out:
         return None
-    res = R.coq_cases(out, label="C18 correspondence")
+    res = None
+    for attempt in range(3):
+        res = R.coq_cases(out, label="C18 correspondence")
+        if res is not None:
+            break
+        # shards killed from outside (no output at all: out-of-memory killer on a loaded machine) are
+        # re-evaluated; a shard that fails WITH output (a Coq error) is a broken obligation at once
+        name, ok, detail = R.obligations[-1]
+        killed = (not ok) and name.endswith("Coq evaluation of observations") and all(x[1] == "" for x in json.loads(detail or "[]") if isinstance(x, list))
+        if not killed or attempt == 2:
+            return None
+        R.note("shards killed without output, retrying after a pause (attempt %d)" % (attempt + 1))
+        R.obligations.pop()
+        R.broken.remove(name)
+        import time
+        time.sleep(45)
     if res is None:
         return None
     mism, viol, total = res
